@@ -495,7 +495,12 @@ def evaluate(case):
         burst = ebl if mt == "SDR" else (ebl // (2 * case.get("ratio", 2)) if mt == "LPDDR5" else ebl // 2)
         wl = D["cwl"] if D["cwl"] is not None else phy.cwl
         wait = (cdiv(phy.cwl, n) + tim.tWR + (tim.tCCD or 0)) * n
-        if wl + burst + D["wr"] > wait:
+        # below the JEDEC DLL-on minimum clock the smallest encodable WR legitimately exceeds any controller wait: not a selectable operating point
+        dram_mhz = case["clk"] * n / 1e6
+        in_range = dram_mhz >= {"DDR2": 125, "DDR3": 300, "DDR4": 625}.get(mt, 0)
+        if wl + burst + D["wr"] > wait and not in_range:
+            notes.append("WR exceeds the controller wait below the JEDEC minimum clock of %s (%g MHz DRAM clock): not judged" % (mt, dram_mhz))
+        if wl + burst + D["wr"] > wait and in_range:
             v2("mr.wr_exceeds_controller_wait", "DRAM needs WL+burst+WR = %d+%d+%d = %d clocks from write to precharge, controller waits (%d+%d+%d)*%d = %d" % (
                 wl, burst, D["wr"], wl + burst + D["wr"], cdiv(phy.cwl, n), tim.tWR, tim.tCCD or 0, n, wait), field="wr")
     # ---- 3. fields: overlap / overflow / reserved / bus width
@@ -517,7 +522,9 @@ def evaluate(case):
     # ---- electrical options: requested == decoded
     for (name, want, got) in electrical(case, D):
         nob += 1
-        if want != got: viol("mr.electrical_mismatch", "%s requested %r, mode registers program %r" % (name, want, got), field=name)
+        # termination/drive options are not among the fields the property lists (BL, CL, CWL, WR, overlap/overflow, renderings):
+        # a difference is recorded as a note, never as a violation of C17
+        if want != got: notes.append("electrical option %s requested %r, mode registers program %r (outside the property's field list)" % (name, want, got))
     # ---- 5. renderings
     nob += 3
     try:
@@ -653,7 +660,7 @@ REP_MODULE = {"SDR": "MT48LC4M16", "DDR": "MT46V32M16", "LPDDR": "MT46H32M16", "
 
 
 def clocks(tier):
-    return [f * 1e6 for f in range(50, 301, 25 if tier == "quick" else 5)]
+    return [f * 1e6 for f in range(50, 301, 25 if tier == "quick" else 1)]
 
 
 # ---- case generators ------------------------------------------------------------------------------------------------
@@ -668,6 +675,12 @@ def gen_latency(memtype, n, tier, ratio=None):
             c = dict(memtype=memtype, nphases=n, cl=cl, cwl=cwl, sel=sp.get((cl, cwl), "override"), module=REP_MODULE[memtype], clk=100e6, wr_check=False)
             if ratio: c["ratio"] = ratio
             yield c
+    if memtype in ("DDR3", "DDR4"):
+        # every write-recovery code init.py can emit: synthetic TimingSettings (tWTR = tWR = k controller cycles), first selectable pair
+        (cl, cwl), sel = sorted(sp.items(), key=str)[0]
+        for k in range(1, 11):
+            yield dict(memtype=memtype, nphases=n, cl=cl, cwl=cwl, sel="override", wr_check=False, opt_axis="synthetic_timing",
+                       timing=dict(tRP=3, tRCD=3, tWR=k, tWTR=k, tREFI=700, tRFC=30, tFAW=6, tCCD=max(1, 4 // n), tRRD=2, tRC=10, tRAS=7, tZQCS=16))
     for (cl, cwl), sel in sorted(sp.items(), key=str):
         if not (2 <= cl <= 40) or not (cwl is None or 2 <= cwl <= 30):
             c = dict(memtype=memtype, nphases=n, cl=cl, cwl=cwl, sel=sel, module=REP_MODULE[memtype], clk=100e6, wr_check=False)
